@@ -149,7 +149,7 @@ def run_case(case, seed):
 
 def main():
     cases = json.load(open(sys.argv[1]))
-    evorig.setup()
+    evorig.setup(custom_label_app=True)
     out = []
     for i, c in enumerate(cases):
         try:
